@@ -21,8 +21,6 @@
  *
  * Strings are written `=text` (`^` = space, `|` = tab, `=` alone = empty string) or `null`.
  * Calls outside the API precondition are not issued: the harness prints `rejected`, and so does the model. */
-#define _GNU_SOURCE
-#include <dlfcn.h>
 #include "parsec/parsec_config.h"
 #include "parsec/runtime.h"
 #include "parsec/constants.h"
@@ -58,19 +56,6 @@ static int stub_show_help(const char *filename, const char *topic, int want_erro
     (void)filename; (void)want_error_header;
     if( 0 == strcmp(topic, "read-only-param-set") ) warn_ro++;
     return PARSEC_SUCCESS;
-}
-
-/* Work-around for a defect of the unchanged tree that is outside the property (docs/notes/C38.md, finding F1):
- * parsec_util_keyval_parse_finalize() frees the static key_buffer without clearing the pointer, so the second
- * read_files() of a process writes to / frees freed memory.  This definition interposes the exported symbol (ELF):
- * with PV_KEEP_KEYBUF in the environment the buffer is simply kept, which lets one process run many cases and
- * `recache`; without it the library's own function runs.  The check first runs corpus case 900 without the variable
- * and sets it only while that case still crashes. */
-int parsec_util_keyval_parse_finalize(void)
-{
-    if( getenv("PV_KEEP_KEYBUF") ) return PARSEC_SUCCESS;
-    int (*real)(void) = (int (*)(void))dlsym(RTLD_NEXT, "parsec_util_keyval_parse_finalize");
-    return real ? real() : PARSEC_SUCCESS;
 }
 
 static int real_idx(int rel) { return rel == 0 ? 0 : rel + base - 1; }
